@@ -140,7 +140,7 @@ var CfgC11 = reg(&MachineCfg{
 			opt.DidGenesis = g.genDidGenesis(app.MakeEncodingConfig().Codec, world.DIDKeys(), true)
 		}
 	},
-	Bias: map[string]int{"right-signers": 95, "exec": 2, "right-proof": 80, "did-mismatch": 30, "did-replay": 18, "did-retarget": 60, "update-to-empty": 10, "tombstone-proof": 35, "did-deactivate": 16, "did-segment": 12, "did-bare-doc": 14, "foreign-controller": 18},
+	Bias: map[string]int{"right-signers": 95, "exec": 7, "right-proof": 80, "did-mismatch": 30, "did-replay": 18, "did-retarget": 60, "update-to-empty": 10, "tombstone-proof": 35, "did-deactivate": 16, "did-segment": 12, "did-bare-doc": 14, "foreign-controller": 18},
 	Rule: "DID machine in which the DID field, the document id and the signed payload are chosen independently (own, other user's, unregistered DIDs) and accepted messages are replayed under other DID fields; oracle = for every active entry under d the stored/read/exported document id is d; non-trivial = >=1 mismatching message carrying an otherwise valid proof",
 	NonTrivial: func(w *world.World) bool {
 		return lab(w, "did mismatching id refused")+w.Obs["c11 mismatching id accepted (open finding)"] > 0
